@@ -8,7 +8,7 @@
 
   Proved for ALL inputs of the stated classes:
   * annotation layer: tokenizer / option parsers against the project's own writer, continuation
-    over several lines (C10_ann_roundtrip_partial, C10_ann_continuation);
+    over several lines (C10_ann_roundtrip, C10_ann_continuation);
   * layout: the three line-ending conventions give the same lines and the same parse
     (C10_line_endings), any white space in front of the asterisk is stripped (C10_asterisk_strip),
     parameter and tag lines are recognised under any indentation behind it (C10_indent_lines);
@@ -17,20 +17,25 @@
     `Returns:`): every layout parses to exactly the block with no diagnostic (C10_parse_render_partial),
     all layouts agree (C10_layout_indep_partial), and writing the parsed block with the project's
     writer and parsing that again gives the same block (C10_write_parse_partial).
-  What the fragment excludes is listed in Spec/BlockGrammar.lean; for three excluded classes the
-  statement is FALSE on the unchanged tree and the witnesses are theorems here
-  (C10_ann_roundtrip_counterexample: `key=`; C10_write_parse_action_counterexample: action
-  identifiers; C10_write_parse_name_prefix_counterexample: symbols named `ACTION…`/`SECTION…`).
-  The remaining parts of the full grammar (other identifier forms, multi-line descriptions,
-  `Since:`/`Deprecated:`/`Stability:`, continuation inside a block) are covered by the model
-  correspondence and the statement oracles of harness/c10.py, not by a theorem.
+  What the fragment excludes is listed in Spec/BlockGrammar.lean.  The three classes for which the
+  last sentence of the property used to be false (empty option values `key=`, action identifiers,
+  symbols named `ACTION…`) were repaired in /repo (902d172, a1e3aaa); they are now inside the
+  theorems (`wfAnns` admits empty values, the fragment admits every `\w+` symbol not starting with
+  `SECTION`) and kept as concrete regressions (C10_write_parse_regressions).
+  What still prevents a `C10_write_parse` over ALL texts that parse without a diagnostic is that
+  this is more than the property says: outside the documented grammar there are diagnostic-free
+  texts the writer cannot reproduce (C10_write_parse_full_false: a `Since:` tag without value whose
+  description, continued on the next line, reads like a value), and a decidable `WFBlock` for the
+  whole documented grammar (other identifier forms, multi-line descriptions,
+  `Since:`/`Deprecated:`/`Stability:`, continuation inside a block) is not written down in Lean;
+  those parts are covered by the model correspondence and the statement oracles of harness/c10.py.
 
   Hypotheses beyond the property's wording (all from its quantifier: "tokens inside one
   annotation separated by single spaces"): `wfAnns` = names are lower-case tokens without
   white space / parentheses / angle brackets and are not the deprecated spellings
   `in-out` / `attribute` (which the parser renames by design); list options are such
-  tokens without `=`; dict options are `key` or `key=value` with distinct keys and
-  NON-EMPTY values (the `_partial` hypothesis; see the counterexample); options of unknown
+  tokens without `=`; dict options are `key` or `key=value` with distinct keys (the value may
+  be empty); options of unknown
   annotations are single-space separated tokens; annotation names are distinct.
   `StopRest`: what follows the annotations on the line is empty or starts with a character
   that is neither white space nor a parenthesis (the statement's "descriptions not beginning
@@ -75,44 +80,19 @@ theorem C10_vocabulary :
     ∧ (Gen.annLPar, Gen.annRPar) = ("(", ")")
     ∧ (Gen.annInoutAlt, Gen.annInout, Gen.annAttribute, Gen.annAttributes) = ("in-out", "inout", "attribute", "attributes")
     ∧ Gen.allTags = Gen.gtkdocTags ++ Gen.deprecatedGtkdocTags ++ Gen.deprecatedGiTags ++ Gen.deprecatedGiAnnTags
-    ∧ Gen.blockLiteralsMissing = [] := by
+    ∧ Gen.blockLiteralsMissing = []
+    ∧ Gen.writerPatternShapes = ["flags() bol lit(65) lit(67) lit(84) lit(73) lit(79) lit(78) lit(58) group<1>(rep(1,inf,in(w))) lit(58) group<2>(rep(1,inf,in(w,45))+lit(46)+rep(1,inf,in(w,45))) eol"] := by
   decide +kernel
 
 /-- Round trip of the annotation field: for every well-formed annotation list, parsing what
     the writer emits gives back exactly that list (after the annotations already present),
     consumes exactly the serialized text, reports a change iff there was an annotation, and
     logs nothing. -/
-theorem C10_ann_roundtrip_partial (col : Nat) (a : Anns) (init : Option Anns) (rest : Str)
+theorem C10_ann_roundtrip (col : Nat) (a : Anns) (init : Option Anns) (rest : Str)
     (hwf : wfAnns a = true) (hdisj : ∀ x ∈ a, assocHas (init.getD []) x.1 = false) (hrest : StopRest rest) :
     ∃ sp, parseAnnotations true col (serializeAnnotations a ++ rest) init =
       .ok (init.getD [] ++ a) [] (!a.isEmpty) sp (serializeAnnotations a).length [] :=
   parseAnnotations_serialize col a init rest hwf hdisj hrest
-
-/-- the full statement: the same for the grammar that includes empty option values (`key=`) -/
-def C10_ann_roundtrip_full : Prop :=
-  ∀ (col : Nat) (a : Anns) (init : Option Anns) (rest : Str), wfAnnsE a = true →
-    (∀ x ∈ a, assocHas (init.getD []) x.1 = false) → StopRest rest →
-    ∃ sp, parseAnnotations true col (serializeAnnotations a ++ rest) init =
-      .ok (init.getD [] ++ a) [] (!a.isEmpty) sp (serializeAnnotations a).length []
-
-/-- witness: `(attributes k=)` is read (silently) as the value `""`, written back as the bare key `k`
-    (the writer tests `if value:`), and read again as `None` -/
-theorem C10_ann_roundtrip_counterexample :
-    parseAnnotations true 0 (str "(attributes k=)") none =
-      .ok [(str "attributes", .dict [(str "k", some [])])] [] true 0 15 [] ∧
-    wfAnnsE [(str "attributes", .dict [(str "k", some [])])] = true ∧
-    serializeAnnotations [(str "attributes", .dict [(str "k", some [])])] = str "(attributes k)" ∧
-    parseAnnotations true 0 (str "(attributes k)") none =
-      .ok [(str "attributes", .dict [(str "k", none)])] [] true 0 14 [] := by
-  decide +kernel
-
-theorem C10_ann_roundtrip_full_false : ¬ C10_ann_roundtrip_full := by
-  intro h
-  obtain ⟨sp, hsp⟩ := h 0 [(str "attributes", .dict [(str "k", some [])])] none [] C10_ann_roundtrip_counterexample.2.1
-    (fun _ _ => rfl) (Or.inl rfl)
-  rw [List.append_nil, C10_ann_roundtrip_counterexample.2.2.1, C10_ann_roundtrip_counterexample.2.2.2] at hsp
-  injection hsp with h1
-  exact absurd h1 (by decide +kernel)
 
 /-- Continuation: an annotation field split over several lines (each continuation line is
     parsed with the annotations collected so far, as `parse_comment_block` does) gives the
@@ -241,60 +221,62 @@ theorem C10_write_parse_partial (L : Layout) (b : SBlock) (n : Nat) (hL : wfLayo
     exact this
   · intro he; rw [he]
 
-/-! ### block level: the full statement, and where the unchanged tree violates it -/
+/-! ### block level: former violations as regressions, and the statement stretched beyond the grammar -/
 
 def parsedBlock (s : Str) (n : Nat) : Option BlockM := ((parseBlock s n).toOption.map (·.1)).join
 def parsedDiags (s : Str) (n : Nat) : Option (List BDiag) := (parseBlock s n).toOption.map (·.2)
 def writtenToken (B : BlockM) : Option Str := (writeBlock B).toOption.map (fun w => w.dropLast)
 
-/-- full statement of the last sentence of the property over the model: EVERY text that parses to a
-    block without a diagnostic is reproduced by write + parse -/
+/-- the three inputs on which write + parse used to change the block (an action identifier, a symbol
+    named `ACTION…`, an empty option value) now come back unchanged -/
+theorem C10_write_parse_regressions :
+    ((parsedBlock (str "/**\n * GtkWidget|win.close\n */") 1).bind writtenToken = some (str "/**\n * GtkWidget|win.close\n */") ∧
+     (parsedBlock (str "/**\n * GtkWidget|win.close\n */") 1).map (·.name) = some (str "ACTION:GtkWidget:win.close")) ∧
+    ((parsedBlock (str "/**\n * ACTION_FOO: (skip)\n */") 1).bind writtenToken = some (str "/**\n * ACTION_FOO: (skip)\n */") ∧
+     (parsedBlock (str "/**\n * ACTION_FOO: (skip)\n */") 1).map (·.annotations) = some [(str "skip", .list [])]) ∧
+    ((parsedBlock (str "/**\n * foo: (attributes k=)\n */") 1).bind writtenToken = some (str "/**\n * foo: (attributes k=)\n */") ∧
+     (parsedBlock (str "/**\n * foo: (attributes k=)\n */") 1).map (·.annotations) =
+       some [(str "attributes", .dict [(str "k", some [])])]) := by
+  decide +kernel
+
+/-- the last sentence of the property stretched to EVERY text that parses to a block without a diagnostic
+    (more than the property says: it speaks of blocks following the documented grammar) -/
 def C10_write_parse_full : Prop :=
   ∀ (s : Str) (n : Nat) (B : BlockM), parsedBlock s n = some B → parsedDiags s n = some [] →
     ∃ w B', writtenToken B = some w ∧ parsedBlock w n = some B' ∧ eraseIndent B' = eraseIndent B
 
-/-- witness 1: an action identifier `Class|group.action` is written as the internal name
-    `ACTION:Class:group.action`, which is not an identifier line: the block is lost -/
-theorem C10_write_parse_action_counterexample :
-    (parsedBlock (str "/**\n * GtkWidget|win.close\n */") 1).map (·.name) = some (str "ACTION:GtkWidget:win.close") ∧
-    parsedDiags (str "/**\n * GtkWidget|win.close\n */") 1 = some [] ∧
-    (parsedBlock (str "/**\n * GtkWidget|win.close\n */") 1).bind writtenToken =
-      some (str "/**\n * ACTION:GtkWidget:win.close\n */") ∧
-    parsedBlock (str "/**\n * ACTION:GtkWidget:win.close\n */") 1 = none := by
-  decide +kernel
-
-/-- witness 2: a symbol whose name starts with `ACTION` (or `SECTION`) is written without its colon and
-    annotations (`write` tests `name.startswith('ACTION')`): the annotations are lost -/
-theorem C10_write_parse_name_prefix_counterexample :
-    (parsedBlock (str "/**\n * ACTION_FOO: (skip)\n */") 1).map (·.annotations) = some [(str "skip", .list [])] ∧
-    parsedDiags (str "/**\n * ACTION_FOO: (skip)\n */") 1 = some [] ∧
-    (parsedBlock (str "/**\n * ACTION_FOO: (skip)\n */") 1).bind writtenToken = some (str "/**\n * ACTION_FOO\n */") ∧
-    (parsedBlock (str "/**\n * ACTION_FOO\n */") 1).map (·.annotations) = some [] := by
-  decide +kernel
-
-/-- witness 3: the empty option value of C10_ann_roundtrip_counterexample, at block level -/
-theorem C10_write_parse_empty_value_counterexample :
-    (parsedBlock (str "/**\n * foo: (attributes k=)\n */") 1).map (·.annotations) =
-      some [(str "attributes", .dict [(str "k", some [])])] ∧
-    parsedDiags (str "/**\n * foo: (attributes k=)\n */") 1 = some [] ∧
-    (parsedBlock (str "/**\n * foo: (attributes k=)\n */") 1).bind writtenToken = some (str "/**\n * foo: (attributes k)\n */") ∧
-    (parsedBlock (str "/**\n * foo: (attributes k)\n */") 1).map (·.annotations) =
-      some [(str "attributes", .dict [(str "k", none)])] := by
+/-- witness that the stretched statement fails outside the documented grammar: a `Since:` tag without a
+    value whose description stands on the next line and reads like a version.  The parser keeps it as a
+    description; written on one line (the only form the writer has) it is a value. -/
+theorem C10_write_parse_full_counterexample :
+    (parsedBlock (str "/**\n * foo:\n *\n * Since:\n * 2.0 x\n */") 1).map (fun B => B.tags.map (fun t => (t.2.value, t.2.description))) =
+      some [(none, some (str "2.0 x"))] ∧
+    parsedDiags (str "/**\n * foo:\n *\n * Since:\n * 2.0 x\n */") 1 = some [] ∧
+    (parsedBlock (str "/**\n * foo:\n *\n * Since:\n * 2.0 x\n */") 1).bind writtenToken =
+      some (str "/**\n * foo:\n *\n * Since: 2.0 x\n */") ∧
+    (parsedBlock (str "/**\n * foo:\n *\n * Since: 2.0 x\n */") 1).map (fun B => B.tags.map (fun t => (t.2.value, t.2.description))) =
+      some [(some (str "2.0"), some (str "x"))] := by
   decide +kernel
 
 theorem C10_write_parse_full_false : ¬ C10_write_parse_full := by
   intro h
-  obtain ⟨h1, h2, h3, h4⟩ := C10_write_parse_action_counterexample
-  cases hp : parsedBlock (str "/**\n * GtkWidget|win.close\n */") 1 with
+  obtain ⟨h1, h2, h3, h4⟩ := C10_write_parse_full_counterexample
+  cases hp : parsedBlock (str "/**\n * foo:\n *\n * Since:\n * 2.0 x\n */") 1 with
   | none => rw [hp] at h1; cases h1
   | some B =>
-    obtain ⟨w, B', hw, hB', _⟩ := h _ 1 B hp h2
-    rw [hp] at h3
+    obtain ⟨w, B', hw, hB', he⟩ := h _ 1 B hp h2
+    rw [hp] at h1 h3
     simp only [Option.bind_some] at h3
     rw [h3] at hw
     cases hw
-    rw [h4] at hB'
-    cases hB'
+    rw [hB'] at h4
+    simp only [Option.map_some, Option.some.injEq] at h1 h4
+    have ht : B'.tags = B.tags := by
+      have := congrArg (fun X : BlockM => X.tags) he
+      exact this
+    rw [ht, h1] at h4
+    revert h4
+    decide +kernel
 
 /-! ### non-vacuity -/
 
@@ -312,9 +294,13 @@ example : StopRest (str ": a description") := Or.inr ⟨':', _, rfl, by decide, 
 
 example : wfAnns ([(str "in", .list [])] ++ [(str "transfer", .list [str "none"])]) = true := by decide +kernel
 
+example : wfAnns [(str "attributes", .dict [(str "k", some []), (str "j", some (str "v"))])] = true ∧
+    serializeAnnotations [(str "attributes", .dict [(str "k", some []), (str "j", some (str "v"))])] =
+      str "(attributes k= j=v)" := by decide +kernel
+
 /-- a block model of the fragment, a layout (tab indentation, CRLF) and the text it renders to -/
 def exampleBlock : SBlock :=
-  { name := str "foo_bar", anns := [(str "skip", .list [])],
+  { name := str "ACTION_foo_bar", anns := [(str "skip", .list [])],
     params := [{ name := str "obj", anns := [(str "in", .list []), (str "transfer", .list [str "none"])], desc := some (str "the object") },
                { name := str "n", anns := [], desc := none }],
     desc := [str "Frobnicates the object.", str "See also baz()."],
@@ -325,7 +311,7 @@ def exampleLayout : Layout := { startIndent := ['\t'], indent := ['\t', ' '], en
 example : wfSBlock exampleBlock = true ∧ wfLayout exampleLayout = true := by decide +kernel
 
 example : render exampleLayout (blockImage exampleBlock 7 []) =
-    str "\t/**\r\n\t * foo_bar: (skip)\r\n\t * @obj: (in) (transfer none): the object\r\n\t * @n:\r\n\t *\r\n\t * Frobnicates the object.\r\n\t * See also baz().\r\n\t *\r\n\t * Returns: (transfer full): a new value\r\n\t */" := by
+    str "\t/**\r\n\t * ACTION_foo_bar: (skip)\r\n\t * @obj: (in) (transfer none): the object\r\n\t * @n:\r\n\t *\r\n\t * Frobnicates the object.\r\n\t * See also baz().\r\n\t *\r\n\t * Returns: (transfer full): a new value\r\n\t */" := by
   decide +kernel
 
 example : (parsedBlock (render exampleLayout (blockImage exampleBlock 7 [])) 7).map eraseIndent =
